@@ -731,7 +731,7 @@ func oracleUnpack(rule []string) string {
 
 // plainPath: usable as a literal DISALLOW pattern
 func plainPath(p string) bool {
-	return okPath(p) && !strings.ContainsAny(p, "*?[\\")
+	return okPath(p) && okPath(globEscape(p))
 }
 
 // observe: verdict plus, when accepted, the queue of the first item after its material rules and after
@@ -758,9 +758,9 @@ func observe(run func(vInput) string, in vInput) string {
 			probe.Items = append([]itemIn{}, in.Items...)
 			it := probe.Items[0]
 			if ty == 0 {
-				it.Mats = append(append([][]string{}, it.Mats...), []string{"DISALLOW", p})
+				it.Mats = append(append([][]string{}, it.Mats...), []string{"DISALLOW", globEscape(p)})
 			} else {
-				it.Prods = append(append([][]string{}, it.Prods...), []string{"DISALLOW", p})
+				it.Prods = append(append([][]string{}, it.Prods...), []string{"DISALLOW", globEscape(p)})
 			}
 			probe.Items[0] = it
 			if r := run(probe); r != "OK" {
@@ -1524,7 +1524,9 @@ func (rp *report) add(klass string, c anyCase, impl, model, oracle string) {
 		if oracle == "" {
 			oracle = "UNTOUCHED-AND-DETERMINISTIC"
 		}
-		if ab != "panic" {
+		if strings.HasPrefix(klass, "large-sets") {
+			klass += "+order-dependent"
+		} else if ab != "panic" {
 			klass = ab
 		}
 	}
@@ -1873,6 +1875,54 @@ func runStream(drv string, n int, out string) {
 			}
 		}
 	}
+	// 4d. backslash names: ordinary names, different from their slash twins, in every rule form
+	for _, B := range backslashNames {
+		for _, form := range backslashForms {
+			in, base := backslashCase(form, B)
+			k, orc, _ := classify(in, base)
+			if orc == "" {
+				panic("backslash-names case outside the oracle's domain: " + form + " " + B)
+			}
+			impl := observe(runVerify, in)
+			model := noModel
+			if d != nil {
+				model = observe(func(x vInput) string { v, _ := d.verify(x); return v }, in)
+			}
+			rp.Distribution[k]++
+			ii := in
+			rp.add(k, anyCase{Kind: "Vq", V: &ii}, impl, model, orc)
+			rp.Nontrivial++
+		}
+	}
+	// 4e. large sets: every queued artifact is looked at, whatever the size of the queue and the order of the map.
+	//     Through the extracted model up to 1039 elements (its list-based sets are quadratic), 2047 in the thorough
+	//     tier; above that implementation vs oracle only
+	for _, n := range largeSizes {
+		for _, form := range largeForms {
+			in, base := largeCase(form, n)
+			o, st, _ := oracleVerify(in)
+			if o == "" {
+				panic("large-sets case outside the oracle's domain")
+			}
+			k := base + "/" + st.end
+			times := 3
+			if form == "disallow-key" {
+				times = 30
+			}
+			impl := runRepeated(in, times)
+			model := noModel
+			if d != nil && (n <= 1039 && (form == "allow-all" || form == "disallow-key" || form == "modify-all" || n == 1025) || n <= 2047 && os.Getenv("VERIF_TIER") == "thorough") {
+				model, _ = d.verify(in)
+			} else {
+				rp.Distribution["large-sets/oracle-only(n="+strconv.Itoa(n)+")"]++
+			}
+			rp.Distribution[k]++
+			rp.Distribution["large-sets/n="+strconv.Itoa(n)]++
+			ii := in
+			rp.add(k, anyCase{Kind: "V", V: &ii}, impl, model, o)
+			rp.Nontrivial++
+		}
+	}
 	// 4b. VerifyArtifacts on every keyword/token variant: artifacts the intended rule would reject or consume
 	for _, v := range variants {
 		in, base := kwVariantCase(v, r.Fork())
@@ -1910,6 +1960,9 @@ func main() {
 			var in vInput
 			var base string
 			switch {
+			case i >= 35 && i < 48:
+				j := i - 35
+				in, base = backslashCase(backslashForms[j%len(backslashForms)], backslashNames[(j*3)%len(backslashNames)])
 			case i >= 27 && i < 35:
 				// long names through vm_compute: only up to 1024 bytes (larger ones go through the extracted model)
 				j := i - 27
